@@ -122,6 +122,21 @@ def run(ctx, prop):
         for k in range(8 if quick else 40):
             scripts.append({"world": world, "steps": [{"op": "banstorm", "n": 24}]})
     scripts += directed(prop, world, quick)
+    # an idle step waits for the server's real 10 s ticker: keep at most one (quick) / three (thorough) per script
+    for idx, sc in enumerate(scripts):
+        keep, seen, dropwake = [], 0, set()
+        limit = (1 if idx % 3 == 0 else 0) if quick else 3
+        for st in sc["steps"]:
+            if st.get("op") == "goneidle":
+                seen += 1
+                if seen > limit:
+                    dropwake.add(st["c"])
+                    continue
+            if st.get("op") == "wake" and st["c"] in dropwake:
+                dropwake.discard(st["c"])
+                continue
+            keep.append(st)
+        sc["steps"] = keep
     sp = ctx.path("scripts.ndjson")
     with open(sp, "w") as f:
         for s in scripts:
